@@ -80,6 +80,9 @@ def check(run):
             q.alias_local(g, 'sim_start_time', pred=lambda v: q.strip_casts(v['init'])['k'] == 'int' and (q.int_value(v['init']) or 0) > 1000000)
         args = [x.arg(1) for x in wsf]
         run.check(len(wsf) == 4 and args[2:] == ['packet_size', 'packet_size'], 'R14', 'record-header', PC + '::log_' + kind, f.loc(), 'the record header is not (secs, usecs, packet_size, packet_size): ' + str(args), '16-byte record header with the length written twice')
+        run.check(bool(wsf) and q.on_all_paths(f, [wsf[0].anchor]), 'R14', 'record-on-every-call', PC + '::log_' + kind, f.loc(),
+                  'a path through log_%s returns without writing a record (e.g. for an empty payload): the closing segment of a connection, which carries no payload, disappears from the capture' % kind,
+                  'a record is written on every path')
         seqf = [x for x in flat if q.callee_name(x.call) != 'sim::aux::write']
         names = [q.callee_name(x.call).split('::')[-1] if (q.callee_name(x.call) or '').startswith('sim::aux::') else 'payload' for x in seqf]
         order_ok = names == ['write_ip_header', 'write_%s_header' % kind, 'payload'] and q.flat_ordered(f, wsf + seqf)
